@@ -106,19 +106,12 @@ def convert(text, **opts):
     return {"ok": True, "out": out, "cpu": time.process_time() - t0}
 
 
-_LIB = None
-
-
-def library():
-    global _LIB
-    if _LIB is None:
-        _LIB = b09i.load_library(boot.ecb_path())
-    return _LIB[0]
+def library(storage=32):
+    return b09i.load_library(boot.ecb_path(), storage)[0]
 
 
 def library_text():
-    library()
-    return _LIB[1]
+    return b09i.load_library(boot.ecb_path(), 32)[1]
 
 
 def parse_b09(out):
@@ -131,14 +124,14 @@ def parse_b09(out):
         return None, {"msg": "reference parser recursion limit", "line": None, "col": None, "text": None, "harness": True}
 
 
-def run_b09(out, inputs=(), budget=20000, start_label=None, err=0, procs=None, tape_start=1, hyp_for_body_once=False):
+def run_b09(out, inputs=(), budget=20000, start_label=None, err=0, procs=None, tape_start=1, hyp_for_body_once=False, storage=32):
     """Execute emitted BASIC09 text with the reference interpreter."""
     if procs is None:
         procs, perr = parse_b09(out)
         if procs is None:
             return {"status": "parse", "error": perr, "events": [], "store": {}, "uninit": [], "mismatches": []}
     main = procs[-1]
-    m = b09i.Machine(procs, library(), inputs=inputs, budget=budget, tape_start=tape_start)
+    m = b09i.Machine(procs, library(storage), inputs=inputs, budget=budget, tape_start=tape_start)
     m.hyp_for_body_once = hyp_for_body_once
     res = {"status": "ok", "error": None}
     frame = None
